@@ -1,0 +1,27 @@
+//go:build verif
+
+package blockwise
+
+// Read-only views of unexported constants and tables for the verification
+// harness (/verif). Compiled only with -tags verif.
+
+const (
+	VerifMaxBlockValue           = maxBlockValue
+	VerifMaxBlockNumber          = maxBlockNumber
+	VerifMoreBlocksFollowingMask = moreBlocksFollowingMask
+	VerifSzxMask                 = szxMask
+)
+
+// VerifSzxToSize returns a copy of the szx -> size table.
+func VerifSzxToSize() map[SZX]int64 {
+	r := make(map[SZX]int64, len(szxToSize))
+	for k, v := range szxToSize {
+		r[k] = v
+	}
+	return r
+}
+
+// VerifBufferSize exposes bufferSize.
+func VerifBufferSize(szx SZX, maxMessageSize uint32) int64 {
+	return bufferSize(szx, maxMessageSize)
+}
